@@ -13,6 +13,12 @@ enum FaultAct {
     CorruptWindow(i64),
     Stop { station: usize, cut: bool },
     Restart { station: usize },
+    /// garble the first transmission of whoever receives `station`'s next token pass
+    GarbleAfterPass { station: usize, fault: Fault },
+    /// lose `station`'s next token pass; garble the first transmission after the repeated pass
+    LostPassThenGarble { station: usize, fault: Fault },
+    /// lose `station`'s next token pass (only a token pass, whatever it transmits before)
+    LostPass { station: usize },
 }
 
 fn fdl_state_name(dbg: &str) -> String {
@@ -103,7 +109,7 @@ fn recovery_core_opts(mut cfg: RingCfg, unsync: bool, t: &mut Tape, obs: &mut Ob
     times.sort();
     for at in times {
         let station = t.below(n as u64) as usize;
-        let act = match t.weighted(&[4, 2, 2, 2, 2, 1, 3, 2]) {
+        let act = match t.weighted(&[4, 2, 2, 2, 2, 1, 3, 2, 2, 2, 1, 2]) {
             0 => FaultAct::NextTx(station, Fault::Drop),
             1 => FaultAct::NextTx(station, Fault::Truncate(1 + t.below(5) as usize)),
             2 => FaultAct::NextTx(station, Fault::FlipBit(t.below(8) as usize, t.below(8) as u8)),
@@ -111,6 +117,34 @@ fn recovery_core_opts(mut cfg: RingCfg, unsync: bool, t: &mut Tape, obs: &mut Ob
             4 => {
                 let k = 1 + t.below(6) as usize;
                 FaultAct::Garbage(t.fill(k))
+            }
+            8 | 9 => {
+                let fault = match t.below(3) {
+                    0 => Fault::FlipBit(t.below(8) as usize, t.below(8) as u8),
+                    1 => Fault::Truncate(1 + t.below(4) as usize),
+                    _ => Fault::Substitute(t.below(6) as usize, t.u8()),
+                };
+                if t.bool() {
+                    FaultAct::GarbleAfterPass { station, fault }
+                } else {
+                    FaultAct::LostPassThenGarble { station, fault }
+                }
+            }
+            10 => FaultAct::LostPass { station },
+            11 => {
+                // rubble: the remains of a damaged telegram whose inside looks like token telegrams
+                // naming stations of this ring (token telegrams carry no checksum)
+                let mut g = vec![t.u8() | 0x01];
+                if [0x11u8, 0x69, 0xA3, 0xDD, 0xE5].contains(&g[0]) {
+                    g[0] = 0x01;
+                }
+                let victim = cfg.stations[station].addr;
+                for _ in 0..(1 + t.below(6)) {
+                    let a = cfg.stations[t.below(n as u64) as usize].addr;
+                    let b = if t.chance(3, 4) { victim } else { cfg.stations[t.below(n as u64) as usize].addr };
+                    g.extend_from_slice(&[0xDC, a, b]);
+                }
+                FaultAct::Garbage(g)
             }
             5 => FaultAct::CorruptWindow(slot * (1 + t.below(6) as i64)),
             6 => {
@@ -148,9 +182,13 @@ fn recovery_core_opts(mut cfg: RingCfg, unsync: bool, t: &mut Tape, obs: &mut Ob
         plan.push((t1, FaultAct::Restart { station: 0 }));
     }
     let mut hit_token = false;
+    let mut garbled_after_pass = false;
     let mut stopped_owner = false;
     let mut pi = 0;
     let trace_mark = sim.bus.trace_len();
+    // token-correlated faults waiting for a token pass of their station: (station, fault, lose first)
+    let mut chains: Vec<(usize, Fault, bool)> = vec![];
+    let mut seen_records = trace_mark;
     // run through the fault window
     loop {
         let tn = match sim.next_time() {
@@ -192,10 +230,42 @@ fn recovery_core_opts(mut cfg: RingCfg, unsync: bool, t: &mut Tape, obs: &mut Ob
                 FaultAct::Restart { station } => {
                     sim.restart_station(station, now + 1);
                 }
+                FaultAct::GarbleAfterPass { station, fault } => chains.push((station, fault, false)),
+                FaultAct::LostPassThenGarble { station, fault } => {
+                    sim.bus.0.borrow_mut().next_token_fault[station] = Some(Fault::Drop);
+                    chains.push((station, fault, true));
+                }
+                FaultAct::LostPass { station } => {
+                    sim.bus.0.borrow_mut().next_token_fault[station] = Some(Fault::Drop);
+                }
             }
             continue;
         }
         sim.step();
+        // token-correlated faults: look at the transmissions that just started
+        if !chains.is_empty() {
+            let mut b = sim.bus.0.borrow_mut();
+            while seen_records < b.trace.len() {
+                let r = b.trace[seen_records].clone();
+                seen_records += 1;
+                if r.bytes.len() == 3 && r.bytes[0] == 0xDC && r.bytes[1] != r.bytes[2] {
+                    if let Some(ci) = chains.iter().position(|c| c.0 == r.sender) {
+                        if chains[ci].2 {
+                            // this is the pass that is lost (or was damaged otherwise); the next one counts
+                            chains[ci].2 = false;
+                        } else {
+                            let (_, fault, _) = chains.remove(ci);
+                            if let Some(di) = sim.nodes.iter().position(|nd| nd.addr == r.bytes[1]) {
+                                b.next_fault[di] = Some(fault);
+                                garbled_after_pass = true;
+                            }
+                        }
+                    }
+                }
+            }
+        } else {
+            seen_records = sim.bus.trace_len();
+        }
     }
     {
         let b = sim.bus.0.borrow();
@@ -208,6 +278,9 @@ fn recovery_core_opts(mut cfg: RingCfg, unsync: bool, t: &mut Tape, obs: &mut Ob
     // faults armed for a 'next transmission' that did not happen inside the window are disarmed:
     // after the window the bus is fault free
     for f in sim.bus.0.borrow_mut().next_fault.iter_mut() {
+        *f = None;
+    }
+    for f in sim.bus.0.borrow_mut().next_token_fault.iter_mut() {
         *f = None;
     }
     let last_disturbance = sim.now.max(t1);
@@ -338,6 +411,18 @@ fn recovery_core_opts(mut cfg: RingCfg, unsync: bool, t: &mut Tape, obs: &mut Ob
     let self_offline = sim.nodes.iter().filter(|nd| !nd.stopped && nd.started && nd.fdl.connectivity_state() != ConnectivityState::Online).count();
     if self_offline > 0 {
         obs.label("station-went-offline-by-duplicate-address-rule");
+    }
+    // ... which is only legitimate after two telegrams carrying the station's own address as source
+    // have reached it - judged by a reference receive path (reference decoder; a decode error
+    // discards everything buffered) that was shown the same receive buffers
+    for (i, nd) in sim.nodes.iter().enumerate() {
+        if !nd.stopped && nd.started && nd.fdl.connectivity_state() != ConnectivityState::Online {
+            let seen = sim.bus.0.borrow().ref_sa_seen[i][usize::from(nd.addr)];
+            ensure!(seen >= 2, "offline-without-collision", "station #{} took itself offline although only {} telegram(s) with its own address as source reached it (two are needed by the duplicate-address rule); damaged telegrams must vanish as a whole{}", nd.addr, seen, dump_tail(&sim));
+        }
+    }
+    if garbled_after_pass {
+        obs.label("garbled-first-transmission-after-token-pass");
     }
     if formed_at.is_none() {
         obs.label("ring-not-formed-before-faults");
